@@ -15,13 +15,13 @@ RULE = (
     "case is replayed against the implementation. Non-trivial = the text contains a newline before the offset (line > 1)."
 )
 ASSUMPTIONS = ["small-scope exhaustive replay, not a proof (proof is a different technique family)"]
-BOUND = {"quick": "strings <= 9 over 3 chars (29k) x all offsets", "thorough": "strings <= 11 (265k) x all offsets"}
+BOUND = {"quick": "strings <= 11 over 3 chars (265k) x all offsets", "thorough": "strings <= 13 (2.4M) x all offsets"}
 FLOOR = {"quick": 100000, "thorough": 1000000}
 CHUNK = 1
 
 
 def cases(tier):
-    n = 9 if tier == "quick" else 11
+    n = 11 if tier == "quick" else 13
     out = []
     for k in range(0, n + 1):
         if k <= 5:
